@@ -217,7 +217,7 @@ def run(pid, tier, seed, replay):
         corr = [corr[int(i * step)] for i in range(coq_cap)]
     pre = ("From Coq Require Import List ZArith Bool.\nFrom DF Require Import Base.Prelude Model.RefSQL Model.JoinAlgo.\n"
            "Import ListNotations.\nOpen Scope Z_scope.")
-    bad, log, dt = vlib.coq_eval_cases(pre, "c05_case", "c05_check", [render(c) for c in corr], shard=200, tag="c05")
+    bad, log, dt = vlib.coq_eval_cases(pre, "c05_case", "c05_check", [render(c) for c in corr], shard=125, tag="c05")
     ck.log("correspondence: %d cases, %d disagreements (%.1fs)" % (len(corr), len(bad), dt))
     if bad:
         first = bad[0]
